@@ -640,7 +640,7 @@ func c06OrderOnly(r *Run, c *Case, rng *Rng, n int) {
 }
 
 func runC06(r *Run) {
-	r.Rule = "whole-operator starts: generated hook directories (1-25 bash hooks in nested paths, ORDER values drawn from a small pool so that many are equal, 30% of the cases one single ORDER; 0-4 kubernetes bindings per hook with groups g1/g2, queues, executeHookOnSynchronization true/false, v0 and v1 configs, every-second schedules, scripted exit codes for the first 1-3 startup executions of a hook) run by a real ShellOperator over kube-client/fake (ConfigMaps/Secrets present, Secrets created while the main queue runs for ungrouped bindings of other queues); back-off shortened through the public queue fields. Observation: GetHooksInOrder(OnStartup), the bootstrapped main queue, the global execution log written by the hooks. Plus order-only cases: hook.Manager with 13-200 onStartup hooks, GetHooksInOrder compared directly. Non-trivial: >= 2 hooks and (equal ORDER values, or grouped bindings, or a binding with executeHookOnSynchronization=false, or scripted failures); distinct = distinct hook-line sequences."
+	r.Rule = "whole-operator starts: generated hook directories (1-25 bash hooks in nested paths, ORDER values drawn from a small pool so that many are equal, 30% of the cases one single ORDER; 0-4 kubernetes bindings per hook with groups g1/g2, queues, executeHookOnSynchronization true/false, v0 and v1 configs, every-second schedules, scripted exit codes for the first 1-3 startup executions of a hook) run by a real ShellOperator over kube-client/fake (ConfigMaps/Secrets present, Secrets created while the main queue runs for ungrouped bindings of other queues); back-off shortened through the public queue fields. Observation: GetHooksInOrder(OnStartup), the bootstrapped main queue, the global execution log written by the hooks. Thorough adds the exhaustive scope of one v1 hook with every list of 1-3 bindings over {no group, g1, g2} x {flag true, false} (258 starts). Plus order-only cases: hook.Manager with 13-200 onStartup hooks, GetHooksInOrder compared directly. Non-trivial: >= 2 hooks and (equal ORDER values, or grouped bindings, or a binding with executeHookOnSynchronization=false, or scripted failures); distinct = distinct hook-line sequences."
 	r.CaseTimeout = 120 * time.Second
 	ip := func(i int) *int { return &i }
 	mk := func(hs ...*c06Hook) []*c06Hook {
@@ -699,6 +699,35 @@ func runC06(r *Run) {
 		}
 		c06Run(r, c, rng, hooks, events)
 	})
+	if r.Thorough() {
+		// exhaustive small scope: one v1 hook, every list of 1-3 kubernetes bindings over
+		// group in {none, g1, g2} x executeHookOnSynchronization in {true, false}
+		r.Exhaust = true
+		var all [][]c06Bind
+		var rec func(cur []c06Bind)
+		rec = func(cur []c06Bind) {
+			if len(cur) > 0 {
+				all = append(all, append([]c06Bind{}, cur...))
+			}
+			if len(cur) == 3 {
+				return
+			}
+			for g := 0; g <= 2; g++ {
+				for _, e := range []bool{true, false} {
+					rec(append(cur, c06Bind{name: fmt.Sprintf("b%d", len(cur)+1), group: g, execSync: e}))
+				}
+			}
+		}
+		rec(nil)
+		r.Extra["exhaustive_cases"] = len(all)
+		r.Cases(1000000, len(all), par, func(c *Case, rng *Rng) {
+			hs := mk(&c06Hook{path: "hook.sh", v1: true, kube: all[c.Idx-1000000]})
+			c06Classify(c, hs)
+			c.Note("exhaustive")
+			c.Nontrivial = true
+			c06Run(r, c, rng, hs, false)
+		})
+	}
 	m := r.N(10, 60)
 	r.Cases(100000, m, 8, func(c *Case, rng *Rng) {
 		nh := rng.Range(13, 60)
